@@ -425,3 +425,34 @@ pub fn main(args: &[String]) {
     file.flush().unwrap();
     println!("{}", json!({"events": n, "histories": histories}));
 }
+
+/// cli-labels <scripts.json>: for every scripted line (UCI moves from the standard start) the label the
+/// engine itself prints for each move (Game::enumerated_candidate_moves), in order.
+pub fn cli_labels(args: &[String]) {
+    let scripts: Value = serde_json::from_str(&std::fs::read_to_string(&args[0]).unwrap()).unwrap();
+    let mut out = vec![];
+    for sc in scripts.as_array().unwrap() {
+        let mut game = Game::new(1);
+        let mut labels = vec![];
+        for u in sc["moves"].as_array().unwrap() {
+            let u = u.as_str().unwrap();
+            let en = game.enumerated_candidate_moves();
+            match en.iter().find(|(m, _)| m.to_uci() == u) {
+                Some((m, label)) => {
+                    labels.push(json!({"uci": u, "label": label}));
+                    let m = m.clone();
+                    if game.apply_chess_move(m).is_err() {
+                        break;
+                    }
+                    game.board_mut().toggle_turn();
+                }
+                None => {
+                    labels.push(json!({"uci": u, "label": null}));
+                    break;
+                }
+            }
+        }
+        out.push(json!({"name": sc["name"], "plies": labels}));
+    }
+    println!("{}", json!({"scripts": out}));
+}
